@@ -39,8 +39,8 @@ def units(tier):
         us.append(Unit("c06." + name, H, "h_" + name, includes=[GEN], backend="z3som", mode="RING", functions=[ALIASES[f] for f in fns], clause=clause, no_checks=True,
                        cbmc_flags=["--unwind", "6", "--no-signed-overflow-check", "--no-div-by-zero-check", "--object-bits", "10"], timeout=600, replay=rp,
                        assumptions=["RING: adjugate structure proved over Z/2^32 on the unsigned instantiation for the unit-determinant family M = L*U (and its affine extensions); a wrong cofactor index or sign breaks the identity on this family"]))
-    for name, clause, fns in (("sing22", "IEEE: determinant() == 0 => inverse() is the identity (2x2, all finite entries)", ["inverse22f", "det22f"]),
-                              ("sing33", "IEEE: determinant() == 0 => inverse() is the identity (3x3, all finite entries)", ["inverse33f", "det33f"])):
+    # sing33 (3x3): cvc5 time-out at 20 min (harness h_sing33 kept) - not claimed
+    for name, clause, fns in (("sing22", "IEEE: determinant() == 0 => inverse() is the identity (2x2, all finite entries)", ["inverse22f", "det22f"]),):
         us.append(Unit("c06." + name, H, "h_" + name, includes=[GEN], backend="cvc5", mode="IEEE", functions=[ALIASES[f] for f in fns], clause=clause, no_checks=True,
                        cbmc_flags=["--unwind", "10", "--no-signed-overflow-check", "--object-bits", "10"], timeout=1200, replay=rp))
     # in-place forms leave what value forms return: the C07 relational units for invert
@@ -57,6 +57,7 @@ def extra_coverage(units, tier):
 
 
 NOT_COVERED = [
+    "determinant() == 0 => identity for 3x3 (both branches) and the 4x4 affine branch: attempted for 3x3, cvc5 time-out",
     "entry-wise error <= c*cond(M)*eps*|M^-1|, 'no NaN/inf for cond < 1/eps^2', continuity across the affine/non-affine switch: floating-point error analysis is beyond the verifier",
     "gjInverse numerics and its zero-pivot return; 4x4 general path; in-place == value for the gj and 4x4 copies (solver memory, see C07)",
     "'determinant so small that dividing would overflow => identity': the guard fact is not yet a separate lemma",
